@@ -143,3 +143,39 @@ Definition counter_today : list ceff := [CAddSaved].
 (* the resuming process re-uses a model object that already carries the run's count *)
 Definition chain_reused (effs : list ceff) (ds : list Z) : Z :=
   fold_left (fun saved d => (resume_count effs saved saved + d)%Z) ds 0%Z.
+
+(* ---- the loop prologue of a resumed standard sampler ------------------------------------------------ *)
+(* FlowProposal.initialise() (called by FlowProposal.resume) clears `populated`; __getstate__ had left the
+   note resume_populated = populated and pool not empty; NestedSampler.check_resume restores the flag from
+   the note.  update_state() may write a periodic checkpoint, whose note is computed from the flag as it
+   is at that moment.  What matters is the order in which nested_sampling_loop issues the two. *)
+Inductive peff := PCheckResume | PUpdateState | PSkip.
+Record pst := { p_pop : bool; p_note : bool; p_resumed : bool; p_written : list bool }.
+   (* p_written: resume_populated notes of the checkpoints written so far, newest first *)
+Definition after_resume_pool (orig : bool) : pst :=
+  {| p_pop := false; p_note := orig; p_resumed := true; p_written := [] |}.
+(* cks: for each update_state in turn, whether its periodic checkpoint condition holds *)
+Fixpoint prologue (effs : list peff) (cks : list bool) (s : pst) : pst :=
+  match effs with
+  | [] => s
+  | PCheckResume :: r =>
+      prologue r cks {| p_pop := if p_resumed s then (if p_note s then true else p_pop s) else p_pop s;
+                        p_note := p_note s; p_resumed := false; p_written := p_written s |}
+  | PUpdateState :: r =>
+      match cks with
+      | true :: cks' => prologue r cks' {| p_pop := p_pop s; p_note := p_note s; p_resumed := p_resumed s;
+                                           p_written := p_pop s :: p_written s |}
+      | _ :: cks' => prologue r cks' s
+      | [] => prologue r [] s
+      end
+  | PSkip :: r => prologue r cks s
+  end.
+(* no update_state before the first check_resume *)
+Fixpoint prologue_ok (effs : list peff) : bool :=
+  match effs with
+  | [] => true
+  | PCheckResume :: _ => true
+  | PUpdateState :: _ => false
+  | PSkip :: r => prologue_ok r
+  end.
+Definition prologue_today : list peff := [PSkip; PCheckResume; PUpdateState].
